@@ -538,7 +538,8 @@ class Expr:
         if isinstance(a, VInt) and isinstance(b, VInt):
             return VInt(z3.If(c, a.i, b.i))
         kind = a.kind if isinstance(a, VVal) and isinstance(b, VVal) and a.kind == b.kind else None
-        return VVal(z3.If(c, self.toVal(a, st), self.toVal(b, st)), kind=kind)
+        cls = a.cls if isinstance(a, VVal) and isinstance(b, VVal) and a.cls == b.cls else None
+        return VVal(z3.If(c, self.toVal(a, st), self.toVal(b, st)), kind=kind, cls=cls)
 
     def ev_NamedExpr(self, node, st):
         def k(v, s):
